@@ -395,7 +395,7 @@ def cpOuter (f : FS) (order : List Name) (acc : Except Err FS) (ind : Int) : Exc
 
 theorem copyF_def (f : FS) (order : List Name) : f.copyF order =
     match f.indices with
-    | [] => .error .key
+    | [] => .ok (newFS f.index)
     | i0 :: _ =>
       match f.indices.foldl (cpOuter f order) (.ok (newFS i0)) with
       | .error e => .error e
@@ -749,10 +749,32 @@ theorem birth?_none_of_not_mem {f : FS} (hF : FInv f) {n : Name} (h : n ∉ f.c.
     have : (f.birth? n).isSome = true := by rw [hb]; rfl
     exact absurd ((hF.names n).mp (birth?_isSome_iff.mp this)) h
 
-/-- with no index at all `copy()` raises (`inds[0]`) -/
-theorem copyF_empty (f : FS) (order : List Name) (h : f.keys = []) : f.copyF order = .error .key := by
+/-- with no index at all (every simplex was deleted) `copy()` is a new empty filtration at the current index -/
+theorem copyF_empty (f : FS) (order : List Name) (h : f.keys = []) : f.copyF order = .ok (newFS f.index) := by
   have : f.indices = [] := by unfold FS.indices; rw [h]; rfl
   rw [copyF_def, this]
+
+/-- the remaining case of `copy()`: a filtration with no index left has no simplex either, and its copy is an
+empty filtration at the same current index, which is `f` again in the sense of `SameFilt` -/
+theorem copyF_empty_spec {f : FS} (hF : FInv f) (h : f.keys = []) (order : List Name) :
+    ∃ g, f.copyF order = .ok g ∧ FInv g ∧ SameFilt f g ∧ g.index = f.index ∧ g.c.simps = [] := by
+  have hb : f.births = [] := by
+    apply List.eq_nil_iff_forall_not_mem.mpr
+    intro p hp
+    have := hF.keys p hp
+    rw [h] at this
+    cases this
+  have hn : f.c.simps = [] := by
+    apply List.eq_nil_iff_forall_not_mem.mpr
+    intro s hs
+    have h1 : s.name ∈ f.c.names := List.mem_map.mpr ⟨s, hs, rfl⟩
+    have h2 := (hF.names s.name).mpr h1
+    rw [hb] at h2
+    cases h2
+  refine ⟨newFS f.index, copyF_empty f order h, newFS_FInv _, ⟨?_, ?_, ?_⟩, rfl, rfl⟩
+  · intro s hs; rw [hn] at hs; cases hs
+  · intro t ht; cases ht
+  · intro n; simp [FS.birth?, newFS, hb]
 
 /-- **`Filtration.copy()`**. Let `f` satisfy the invariant and have at least one index, and let `order`
 enumerate the names of `f` (each once) so that no simplex comes before one of its faces born at the same index
